@@ -220,6 +220,13 @@ func (r *Run) writeObs() {
 // Expired reports whether the internal budget is used up; callers stop exploring and the
 // evidence says exhaustive:false with the cap that was hit (never a violation).
 func (r *Run) Expired(what string) bool {
+	r.mu.Lock()
+	re := r.recheck
+	r.mu.Unlock()
+	if re {
+		// a determinism re-execution always runs as far as the original run did
+		return false
+	}
 	if time.Now().After(r.deadline) {
 		r.Cap("time budget reached in " + what)
 		return true
@@ -702,7 +709,8 @@ func (r *Run) Finish() {
 			continue
 		}
 		// determinism: the failing case must fail again when its group is re-run, twice.
-		if f, ok := r.groups[v.Group]; ok && r.replayGroup == "" {
+		// (re-executions stop after 5 minutes in total: later observations are then reported as they were seen)
+		if f, ok := r.groups[v.Group]; ok && r.replayGroup == "" && time.Since(r.start).Seconds()-wall < 300 {
 			for k := 0; k < 2; k++ {
 				r.mu.Lock()
 				r.recheck, r.reFound, r.replayKey, r.replayCase = true, false, v.Key, v.CaseID
